@@ -4818,6 +4818,16 @@ int main(int argc, char** argv) {
                 }
             };
 
+            // Bytes delivered by any control endpoint are only trusted if they hash to the manifest's content hash.
+            auto payload_matches_manifest = [&](const ephemeralnet::daemon::ControlResponse& response) {
+                if (!response.has_payload || !decoded_manifest.has_value()) {
+                    return true;
+                }
+                const auto digest = ephemeralnet::crypto::Sha256::digest(
+                    std::span<const std::uint8_t>(response.payload.data(), response.payload.size()));
+                return digest == decoded_manifest->chunk_hash;
+            };
+
             auto perform_fetch_request = [&](ephemeralnet::daemon::ControlClient& target_client,
                                             ephemeralnet::daemon::ControlFields request_fields,
                                             const std::string& progress_label,
@@ -5097,6 +5107,10 @@ int main(int argc, char** argv) {
                         attempt_log.push_back({friendly_label, reason});
                         return false;
                     }
+                    if (!payload_matches_manifest(*response)) {
+                        attempt_log.push_back({friendly_label, "Payload does not match the manifest content hash"});
+                        return false;
+                    }
 
                     finalize_fetch(*response);
                     if (from_fallback) {
@@ -5248,6 +5262,11 @@ int main(int argc, char** argv) {
             std::string local_error;
             const auto local_response = perform_fetch_request(client, base_fields, "Downloading", &local_error);
             if (local_response && local_response->success) {
+                if (!payload_matches_manifest(*local_response)) {
+                    throw_cli_error("E_FETCH_HASH_MISMATCH",
+                                    "Daemon returned bytes that do not match the manifest content hash",
+                                    "Retry the fetch; the chunk held by the daemon may be corrupted.");
+                }
                 finalize_fetch(*local_response);
                 print_daemon_hint(*local_response);
                 return 0;
